@@ -90,7 +90,8 @@ def check_keying(ck, rule):
     deps = fa.deps(asg.value)
     ok = "param:version" in deps and any(d == "const:'#'" for d in deps)
     # the '#version' part is appended whenever a version exists
-    app = [s for s in fa.stmts(ast.AugAssign) if isinstance(s.target, ast.Name) and s.target.id == "qualified_name"
+    acc = asg.value.id if isinstance(asg.value, ast.Name) else None  # the local the name is accumulated in
+    app = [s for s in fa.stmts(ast.AugAssign) if isinstance(s.target, ast.Name) and s.target.id == acc
            and "version" in A.names_in(s.value) and "#" in A.strings_in(s.value)]
     guard_ok = False
     for s in app:
@@ -98,7 +99,7 @@ def check_keying(ck, rule):
         if g is not None and A.norm(g.test) == "version is not None":
             guard_ok = True
     ok = ok and guard_ok
-    ck.ob(rule, fa.key(asg), ok, "qualified_name = name + '#' + version whenever a version exists" if ok else
+    ck.ob(rule, fa.key(None, "versioned-name"), ok, "qualified_name = name + '#' + version whenever a version exists" if ok else
           "the qualified name is not extended with '#'+version whenever a version exists", fa.where(asg))
     # the property returns that very field
     p = FA(ck, "reference.FunctionReference.qualified_name")
